@@ -181,6 +181,7 @@ def run(tier: str, seed: int, rep: Report, model: Model) -> dict:
     rep.rule = ("generated models (1-4 fields, optional / plain fields, markers, expressions) with 2-4 constructions / model_validate calls in "
                 "shuffled keyword order (conforming or with one / two faults; model_validate with no / a fresh / a reused context= dict) and, under validate_assignment, one assignment; nested models; "
                 "class-definition dtype cross-check for npt.NDArray[...]; distinct = distinct history; non-trivial = at least two validations")
+    rep.rule += '; model_validate with no / a fresh / a reused context= dict; 450+ class definitions (every class x concrete, union and abstract scalar types, alias base types); one array changed in place between validations'
     rep.notes.append("partial: model_dump / iteration / repr / model_fields_set are compared by the harness only; validate_assignment is the known finding K2")
     hs = []
     while len(hs) < n:
